@@ -1,7 +1,7 @@
 """C12 - the token tree is well-formed and its generic views are faithful (E1 inputs + invariant checker)."""
 import json
 import itertools
-from mc import core, configs, spaces, trees, inlines, leafspell
+from mc import core, configs, spaces, trees, inlines, leafspell, inlinespell
 
 ID = 'C12'
 TECHNIQUE = ('exhaustive enumeration of texts over the line alphabet, of inline words placed in four block contexts and of '
@@ -48,6 +48,7 @@ def jobs(tier):
         js += [('trees', n, 2 if tier == 'quick' else 3, sh, ns) for sh in range(ns)]
     js += [('inlines', ci, tier) for ci in range(len(inlines.CONTAINERS))]
     js += leafspell.jobs()
+    js += inlinespell.jobs()
     return js
 
 
@@ -271,6 +272,13 @@ def run_job(job):
                     if ctx is not None:
                         run_text(r, ctx[0])
         r.sample(dict(space='inline menu', container=inlines.CONTAINERS[job[1]][0]), 1)
+    elif kind == 'inlinespell':
+        for case in inlinespell.cases_of_job(job):
+            for ctx in inlinespell.CONTEXTS:
+                x = inlinespell.in_context(case, ctx)
+                if x is not None:
+                    run_text(r, x[0])
+        r.sample(dict(space='inline spellings', family=job[1]), 1)
     elif kind == 'leafspell':
         for case in leafspell.cases_of_job(job):
             for ctx in leafspell.CONTEXTS:
